@@ -671,6 +671,13 @@ func (fr *Frame) enterCutLoop(n *unode, l *Loop, s *State, g *Term, phis []*ssa.
 		x.assumeWF(g, s.regs[phi], phi.Type(), s)
 	}
 	fr.havocTargets(s, pre, targets, g)
+	// ghost counters (effect counters of callee contracts, atcall counters) may be incremented by the body: they are
+	// arbitrary at the loop head, like everything the loop writes; invariants say what is known about them
+	for _, name := range sortedKeys(s.ghost) {
+		if v := s.ghost[name]; name != "$clock" && bvWidth(v.sort) > 0 {
+			s.ghost[name] = c.Fresh("loop_ghost_"+name, v.sort)
+		}
+	}
 	if loopAllocates(l) {
 		na := c.Fresh("alloc", SInt)
 		x.assume(g, c.IntCmp(">=", na, pre.alloc))
